@@ -41,6 +41,11 @@ pub fn check_bfs<D: Order + OutNeighbors>(g: &D, name: &str, m: &UModel, sources
         );
     }
 
+    // the iterators behave like iterators over those sequences however they are consumed
+    if n <= 40 {
+        crate::props::c02::protocol(&format!("Bfs<{name}>"), || Bfs::new(g, sources.iter().copied()), &seq)?;
+        crate::props::c02::protocol(&format!("BfsDist<{name}>"), || BfsDist::new(g, sources.iter().copied()), &items)?;
+    }
     let dist = BfsDist::new(g, sources.iter().copied()).distances();
     ensure!(dist.len() == n, "BfsDist<{name}>::distances() has length {} for order {n}", dist.len());
     for v in 0..n {
